@@ -152,7 +152,7 @@ func C20Scenario() *Scenario {
 						c = &c20Ctl{name: name, kind: []string{"composite", "decorator"}[t.Pick(2, "kind")]}
 						ctls[name] = c
 					}
-					ops := []string{"create-or-update", "create-or-update", "noop-update", "delete", "recreate-unchanged"}
+					ops := []string{"create-or-update", "create-or-update", "noop-update", "delete", "recreate-unchanged", "replace"}
 					op := ops[t.Pick(len(ops), "op")]
 					if t.Pick(5, "pause") == 4 {
 						// the process has been up for a while (longer than any 20-minute cache in it)
@@ -176,6 +176,15 @@ func C20Scenario() *Scenario {
 						w.Store.Delete(resOf(c), "", c.name, DeleteOpts{}, "config")
 						c.exists = false
 						opName = "delete " + c.kind + "/" + c.name
+					case op == "replace" && c.exists:
+						// deleted and created again with another spec before the reconciler gets to
+						// look: one Reconcile, which finds an object of the known name whose
+						// generation is 1 again
+						w.Store.Delete(resOf(c), "", c.name, DeleteOpts{}, "config")
+						mkSpec(c)
+						mustCreate(w.Store, resOf(c), "", c.spec, "config")
+						opName = fmt.Sprintf("replace %s/%s by v%d (%s) in one go", c.kind, c.name, c.ver, c.why)
+						w.Probe("c20:replaced-between-two-reconciles")
 					case op == "noop-update" && c.exists:
 						EditObject(w, resOf(c), "", c.name, "config", func(o Object) { setPath(o, fmt.Sprint(w.step), "metadata", "annotations", "touched") })
 						noop = true
